@@ -109,6 +109,9 @@ class ModuleInfo:
         return _MISSING
 
 
+_PARSED = {}     # (path, mtime) -> ModuleInfo, per process
+
+
 class Loader:
     def __init__(self, repo=None):
         self.repo = repo or REPO
@@ -134,7 +137,12 @@ class Loader:
             p = self.module_path(dotted)
             if p is None:
                 return None
-            self.mods[dotted] = ModuleInfo(self, dotted, p)
+            key = (p, os.stat(p).st_mtime_ns)
+            mi = _PARSED.get(key)
+            if mi is None:
+                mi = ModuleInfo(self, dotted, p)
+                _PARSED[key] = mi
+            self.mods[dotted] = mi
         return self.mods[dotted]
 
     def module_by_relpath(self, relpath):
